@@ -18,9 +18,9 @@ C_NAMES = ["main.c", "a.c", "b.c", "util.h", "a.h", "my file.c", "a.b.c", "x.tar
            "main.copy.c", "a.c.c", "a.h.c", "util.h.h", "a.c (1).c",
            # glob metacharacters in FILE names (directory names with them stay outside the domain: the recursive pattern is built from
            # the directory name, and the statement is silent about that)
-           "v[1].c", "v1.c", "a?.c", "ab.c", "x*.h", "[a].h"]
+           "v[1].c", "v1.c", "a?.c", "ab.c", "x*.h", "[a].h", "@main.c", "@x.h", "+x.c", "a,b.c", "=.h"]
 OTHER_NAMES = ["a.cc", "a.hh", "b.C", "c.H", "d.c.bak", "e.ch", "f.c~", "g.hpp", "c", "h", "Makefile", "README.md", "notes.txt",
-               "a.cpp", "x.o", "ac", "a.c.orig", "dotc.", "k.ｃ"]
+               "a.cpp", "x.o", "ac", "a.c.orig", "dotc.", "k.ｃ", "@notes.txt", "@args"]
 DIR_NAMES = ["src", "include", "lib", "sub dir", "v1.2", "d.c", "inc.h", "deep", "x", "objs.o", "a.b", "tests",
              "v[2]", "v2", "what?", "whats", "st*r", "star", "[ab]", "a", "b"]      # directories whose names read as glob patterns, next to what they would match
 
